@@ -1,6 +1,7 @@
 import H3.Drv.Util
 import H3.Model.FrameStream
-import H3.Spec.Framing
+import H3.Lemmas.FrameStreamFast
+import H3.Spec.FramingJudge
 /-! Driver engines `frame` and `fs` (C02). -/
 namespace H3.Drv.C02
 open H3.Drv H3.Frame H3.FS
@@ -78,30 +79,94 @@ def renderTok : Tok → String
   | .none_ => "N"
   | .pending => "P"
   | .truncated => "E:end"
+  -- `E:proto:malformed` is the answer the callers turn into H3_FRAME_ERROR, `E:proto:settings(<reason>)`
+  -- (any reason) the one they turn into H3_SETTINGS_ERROR (`got_frame_error`; `C02_frame_error_code_at_callers`)
   | .malformed => "E:proto:malformed"
   | .h2 ty => s!"E:proto:unsupported({ty})"
   | .badSettings => "E:proto:settings(*)"
   | .okSettings => "F:settings(*)"
   | .outside => "?"
 
+/-- how the stream of a script ends (the first `fin` or `reset`; later events are never looked at), the
+    bytes before that, and how often the transport answers `Pending` before that -/
+def scriptEnd : List Ev → Varint.Bytes × H3.Spec.Framing.Stop × Nat
+  | [] => ([], .open_, 0)
+  | .chunk b :: r => let (w, s, p) := scriptEnd r; (b ++ w, s, p)
+  | .pend :: r => let (w, s, p) := scriptEnd r; (w, s, p + 1)
+  | .fin :: _ => ([], .fin, 0)
+  | .reset c :: _ => ([], .reset c, 0)
+
+/-- a pattern with at most one `*` against a token -/
+def tokMatch (pat tok : String) : Bool :=
+  if pat == "*" || pat == tok then true else
+  match pat.splitOn "*" with
+  | [a, b] => tok.length ≥ a.length + b.length && tok.startsWith a && tok.endsWith b
+  | _ => false
+
 open H3.Spec.Framing in
-def specLine (script : List Ev) : String :=
-  -- the specification speaks about FIN and still-open endings (DESIGN §7 C02 / App. B.1)
-  if script.any (fun e => match e with | .reset _ => true | _ => false) then "?" else
-  -- events after the first `fin` are never looked at
-  let upto := script.takeWhile (· != .fin)
-  let w := scriptBytes upto
-  let ending := if script.contains .fin then Ending.fin else Ending.open_
-  let toks := observe (w.length + 1) w ending
-  if toks.contains .outside then "?" else
-  -- a truncated DATA payload: any prefix of the bytes present may have been handed out
-  let alts : List (List Tok) :=
-    match toks.reverse with
-    | .truncated :: .partialData bs :: pre =>
+def parseAns (s : String) : Ans String :=
+  if s == "N" then .none_
+  else if s == "P" then .pending
+  else if s == "E:end" then .errEnd
+  else if s.startsWith "D:" then
+    match parseHex (s.drop 2).toString with
+    | some b => .data b
+    | none => .other
+  else if s.startsWith "E:quic:" then
+    match (s.drop 7).toString.toNat? with
+    | some c => .errQuic c
+    | none => .other
+  else if s.startsWith "F:" || s.startsWith "E:proto:" then .tok s
+  else .other
+
+/-- the longest payload cut short by FIN for which the specification line lists every prefix (beyond
+    that the line ends `**` and the judge alone decides about the data handed out) -/
+def maxListedPrefixes : Nat := 24
+
+open H3.Spec.Framing in
+/-- the lines a reader loop may print for the token list `toks` of the oracle -/
+def loopPatterns (toks : List Tok) : List String :=
+  let line (ts : List Tok) := " ".intercalate (ts.map renderTok)
+  match toks.reverse with
+  | .truncated :: .partialData bs :: pre =>
+    -- a truncated DATA payload: any prefix of the bytes present may have been handed out
+    if bs.length ≤ maxListedPrefixes then
       (List.range (bs.length + 1)).map (fun k =>
-        pre.reverse ++ (if k = 0 then [] else [Tok.data (bs.take k)]) ++ [Tok.truncated])
-    | _ => [toks]
-  " || ".intercalate (alts.map (fun ts => " ".intercalate (ts.map renderTok)))
+        line (pre.reverse ++ (if k = 0 then [] else [Tok.data (bs.take k)]) ++ [Tok.truncated]))
+    else [line pre.reverse ++ " **"]
+  | _ => [line toks]
+
+open H3.Spec.Framing in
+/-- `strict`: the SETTINGS reading R-02s alone; otherwise also what `observe` says -/
+def specLoop (strict : Bool) (script : List Ev) : String :=
+  let (w, stop, _) := scriptEnd script
+  let alts := observeAlts (!strict) w stop.ending
+  if alts.any (·.contains .outside) then "?" else
+  match stop with
+  -- which prefix of the observations is seen before the reset's error is not fixed: the judge decides
+  | .reset _ => "ok **"
+  | _ => " || ".intercalate ((alts.flatMap loopPatterns).eraseDups.map ("ok " ++ ·))
+
+open H3.Spec.Framing in
+def judgeInit (stop : Stop) (pends : Nat) (calls : Bool) (toks : List Tok) : JSt :=
+  { ref := toks, pends := if calls && stop != .open_ then some pends else none }
+
+open H3.Spec.Framing in
+/-- the judge's verdict on a list of printed answers: `ok`, or `BAD@<index of the first unacceptable answer>` -/
+def verdict (strict : Bool) (script : List Ev) (calls : Option (List JCall)) (answers : List String) : String :=
+  let (w, stop, pends) := scriptEnd script
+  let alts := observeAlts (!strict) w stop.ending
+  if alts.any (·.contains .outside) then "ok" else
+  let m : Tok → String → Bool := fun t s => tokMatch (renderTok t) s
+  let as := answers.map parseAns
+  let rs := alts.map (fun toks =>
+    match calls with
+    | some cs => judgeCalls m stop (judgeInit stop pends true toks) cs as 0
+    | none => judgeLoop m stop (judgeInit stop pends false toks) as 0)
+  if rs.any (·.isNone) then "ok" else
+  match rs with
+  | some i :: _ => s!"BAD@{i}"
+  | _ => "BAD"
 
 def renderDec : H3.Frame.DecRes → String
   | .frame f n => s!"ok {renderFrame f} {n}"
@@ -109,22 +174,88 @@ def renderDec : H3.Frame.DecRes → String
   | .incomplete m => s!"incomplete {m}"
   | .error e => s!"err {renderErr e}"
 
-def handle : List String → String
-  | ["frame", "dec", h] =>
-    match parseHex h with
-    | none => "bad-op"
-    | some bs => renderDec (decode bs) ++ " ## ?"
-  | ["fs", "calls", sc, cs] =>
-    match parseScript sc, parseCalls cs with
-    | some script, some calls =>
-      " ".intercalate ((runCalls {} script calls).map renderOut) ++ " ## ?"
-    | _, _ => "bad-op"
-  | ["fs", "loop", sc] =>
+open H3.Spec.Framing in
+def renderFirst : First → String
+  | .incomplete => "incomplete *"
+  | .data len hdr => s!"ok data({len}) {hdr}"
+  | .known (.frame f) n => s!"ok {renderFrame f} {n}"
+  | .known .okSettings n => s!"ok settings(*) {n}"
+  | .known .malformed _ => "err malformed"
+  | .known (.h2 ty) _ => s!"err unsupported({ty})"
+  | .known .badSettings _ => "err settings(*)"
+  | .known _ _ => "?"
+  | .skipped n => s!"unknown {n}"
+  | .outside => "?"
+
+open H3.Spec.Framing in
+/-- what `Frame::decode` has to answer on the buffer `w`: the segmentation of the first frame -/
+def specDec (strict : Bool) (w : Varint.Bytes) : String :=
+  let a := firstFrame (classifyS false) w
+  let b := firstFrame (classifyS true) w
+  let c := firstFrame classify w
+  let l := if b = a then [a] else [a, b]
+  let l := if !strict && !l.contains c then l ++ [c] else l
+  if l.contains .outside then "?" else " || ".intercalate (l.map renderFirst)
+
+def parseJCalls (s : String) : Option (List H3.Spec.Framing.JCall) :=
+  s.toList.mapM (fun c => if c == 'n' then some .next else if c == 'd' then some .data else none)
+
+def strictOp (op base : String) : Option Bool :=
+  if op == base then some false else if op == base ++ "S" then some true else none
+
+def handleDec (strict : Bool) (h : String) : String :=
+  match parseHex h with
+  | none => "bad-op"
+  | some bs => renderDec (decode bs) ++ " ## " ++ specDec strict bs
+
+def handleCalls (strict : Bool) (sc cs : String) : String :=
+  match parseScript sc, parseCalls cs, parseJCalls cs with
+  | some script, some calls, some jcalls =>
+    -- `runCallsF = runCalls` (`H3.FS.runCallsF_eq`, `C02_driver_runs_the_model`)
+    let outs := (runCallsF {} script calls).map renderOut
+    let spec := if specLoop strict script == "?" then "?" else "ok **"
+    (verdict strict script (some jcalls) outs ++ " " ++ " ".intercalate outs).trimAscii.toString ++ " ## " ++ spec
+  | _, _, _ => "bad-op"
+
+def handleLoop (strict : Bool) (sc : String) : String :=
+  match parseScript sc with
+  | some script =>
+    let fuel := 4 * (scriptBytes script).length + 4 * script.length + 8
+    -- `readerLoopF = readerLoop` (`H3.FS.readerLoopF_eq`, `C02_driver_runs_the_model`)
+    let outs := (normalise (readerLoopF fuel {} script)).map renderOut
+    (verdict strict script none outs ++ " " ++ " ".intercalate outs).trimAscii.toString ++ " ## " ++ specLoop strict script
+  | none => "bad-op"
+
+/-- `fs judge <0|1 strict> loop <script> @@ <answers>` / `fs judge <0|1> calls <script> <calls> @@ <answers>`:
+    the verdict of `H3.Spec.Framing.judgeLoop` / `judgeCalls` on answers observed elsewhere (the
+    implementation's, sent here by `Prop.project_all`) -/
+def handleJudge : List String → String
+  | s :: "loop" :: sc :: "@@" :: answers =>
     match parseScript sc with
-    | some script =>
-      let fuel := 4 * (scriptBytes script).length + 4 * script.length + 8
-      let outs := normalise (readerLoop fuel {} script)
-      " ".intercalate (outs.map renderOut) ++ " ## " ++ specLine script
+    | some script => verdict (s == "1") script none answers
+    | none => "bad-op"
+  | s :: "calls" :: sc :: cs :: "@@" :: answers =>
+    match parseScript sc, parseJCalls cs with
+    | some script, some jcalls => verdict (s == "1") script (some jcalls) answers
+    | _, _ => "bad-op"
+  | _ => "bad-op"
+
+/-- ops `dec` / `loop` / `calls`: the committed reading (lenient about WHICH error a SETTINGS payload
+    that ends inside an entry is); ops `decS` / `loopS` / `callsS`: the same cases under the strict
+    reading R-02s (DESIGN.md section 9). -/
+def handle : List String → String
+  | "fs" :: "judge" :: rest => handleJudge rest
+  | ["frame", op, h] =>
+    match strictOp op "dec" with
+    | some strict => handleDec strict h
+    | none => "bad-op"
+  | ["fs", op, sc, cs] =>
+    match strictOp op "calls" with
+    | some strict => handleCalls strict sc cs
+    | none => "bad-op"
+  | ["fs", op, sc] =>
+    match strictOp op "loop" with
+    | some strict => handleLoop strict sc
     | none => "bad-op"
   | _ => "bad-op"
 
